@@ -47,6 +47,7 @@ Profile GetProfile(const std::string& name, bool thorough) {
     p.gen.features &= ~F_REGEN;
   } else if (name == "C06") {
     p.pm_cmd_fail = 80; p.pm_interrupt = 80; p.pm_jobserver = 500; p.pm_io_error = 120; p.pm_load = 100; p.w_block_dir = 1;
+    p.cmd_interrupt_status = true;
     p.gen.features |= F_POOLS | F_CONSOLE;
   } else if (name == "C07") {
     p.pm_interrupt = 350; p.pm_crash = 300; p.pm_torn = 150; p.pm_cmd_fail = 30;
@@ -180,6 +181,12 @@ struct Driver {
         int code = 1 + (int)H(255);
         if (code == 130) code = 131;
         p.fail[s.id] = std::make_pair(code << 8, (int)H(3));
+        // a command may itself end like an interrupted one (it exits 130, or it alone got the
+        // signal): ninja then stops as if the user had interrupted it
+        if (prof.cmd_interrupt_status && H(4) == 0) {
+          static const int kSt[] = {130 << 8, SIGINT, SIGTERM, SIGHUP};
+          p.fail[s.id].first = kSt[H(4)];
+        }
       } else if (c < prof.pm_cmd_fail + prof.pm_cmd_signal) {
         static const int kSig[] = {SIGSEGV, SIGKILL, SIGABRT};
         p.fail[s.id] = std::make_pair(kSig[H(3)], (int)H(3));
